@@ -160,3 +160,34 @@ Fixpoint insert_kd (x : Z * nat) (l : list (Z * nat)) : list (Z * nat) :=
 Definition knn_brute (pts : list (Z * Z)) (k : nat) : graph :=
   map (fun i => map snd (firstn k (fold_right insert_kd [] (keyed pts i))))
       (seq 0 (length pts)).
+
+(* ---------------------------------------------------------------- ties
+   tie_free: every sample sees all the others at pairwise different distances.
+   boundary_free_b dist N k: no sample has a tie AT THE BOUNDARY of its k-NN list: for every other
+   sample a of sample i, with c = #{x : d(i,x) < d(i,a)} and e = #{x : d(i,x) <= d(i,a)} (x over the
+   other samples), e <= k (a and everything tied with it is inside every exact list) or k <= c (all
+   outside); on the sorted distances ds of sample i: ds[k-1] <> ds[k].
+   rows_unique: the exact k-NN list of every sample is unique as a set. *)
+Definition tie_free (dist : nat -> nat -> Z) (N : nat) : Prop :=
+  forall i a b, i < N -> a < N -> b < N -> a <> i -> b <> i -> a <> b -> dist i a <> dist i b.
+
+Definition tie_free_b (dist : nat -> nat -> Z) (N : nat) : bool :=
+  forallb (fun i => forallb (fun a => forallb (fun b =>
+     (a =? i) || (b =? i) || (a =? b) || negb (dist i a =? dist i b)%Z)
+     (seq 0 N)) (seq 0 N)) (seq 0 N).
+
+Definition others (N i : nat) : list nat := filter (fun x => negb (x =? i)) (seq 0 N).
+
+Definition cnt_lt (dist : nat -> nat -> Z) (N i a : nat) : nat :=
+  length (filter (fun x => (dist i x <? dist i a)%Z) (others N i)).
+Definition cnt_le (dist : nat -> nat -> Z) (N i a : nat) : nat :=
+  length (filter (fun x => (dist i x <=? dist i a)%Z) (others N i)).
+
+Definition boundary_free_b (dist : nat -> nat -> Z) (N k : nat) : bool :=
+  forallb (fun i => forallb (fun a => (cnt_le dist N i a <=? k) || (k <=? cnt_lt dist N i a))
+                            (others N i)) (seq 0 N).
+
+Definition rows_unique (dist : nat -> nat -> Z) (N k : nat) : Prop :=
+  forall i r1 r2, i < N -> is_knn_row dist N k i r1 -> is_knn_row dist N k i r2 ->
+  forall j, In j r1 -> In j r2.
+
